@@ -12,7 +12,9 @@ RULE = ('generated mem-mode module (accessor function per load/store flavour x s
         'reference interpreter: after EVERY call the call result and (pages, CRC32 of the whole memory) read through the '
         'exported-memory accessor must match, plus byte dumps around written regions. Non-trivial = history with an unaligned '
         'multi-byte access, a sign-extending load of a value with the sign bit set, a grow after a store, an overlapping copy '
-        'or a failing grow; distinct by (module, history). NOT decided: the no-32-bit-wrap clause of the effective address '
+        'or a failing grow; distinct by (module, history). A second generator (c05_bigmem) uses a memory of just over 2 GiB so '
+        'that effective addresses with the sign bit set, base + static offset crossing 2^31 and data segments at such offsets are in '
+        'bounds (sparse model memory; plain builds only). NOT decided: the no-32-bit-wrap clause of the effective address '
         '(unobservable in bounds, DESIGN section 8).')
 ASSUME = ['reference interpreter calibrated against the spec-suite expectations (memory_copy/fill/init/grow suites included)',
           'grows that the specification allows to fail for lack of memory are only generated up to 64 pages total',
@@ -221,7 +223,85 @@ def make_history(ch, params):
     return m, script, {'nontrivial_fn': nt, 'ninst': 1, 'classes': cls}
 
 
+@f1.maker('c05_bigmem')
+def make_bigmem(ch, params):
+    """a memory of just over 2 GiB: effective addresses at and beyond 2^31 (sign bit of the 32-bit address set, base + static offset
+    crossing 2^31, data segments whose i32.const offset is negative when read as signed) are in bounds and must behave like any other"""
+    m = Module()
+    pages = 32768 + 2 + ch.below(3)
+    size = pages * 65536
+    m.memory = (pages, ch.pick((None, pages, 65536)))
+    m.exports.append((b'mem', 'memory', 0))
+    acc = []
+
+    def add(name, ps, rs, body, kind, det):
+        m.funcs.append(Func(m.type_index(ps, rs), [], body))
+        m.exports.append((name, 'func', len(m.funcs) - 1))
+        acc.append((kind, len(acc), det))
+    offs = (0, 16, 65535, 0x7ffffff0, 0x7fffffff, 0x80000000, 0x80000004)
+    loads = sorted(LOADS.items())
+    stores = sorted(STORES.items())
+    for n, (_, t, nb, signed) in [loads[ch.below(len(loads))] for _ in range(8)]:
+        off = ch.pick(offs)
+        add(b'ld%d' % len(acc), (I32,), (t,), [('local.get', 0), (n, 0, off)], 'load', (n, t, nb, signed, off))
+    for n, (_, t, nb) in [stores[ch.below(len(stores))] for _ in range(8)]:
+        off = ch.pick(offs)
+        add(b'st%d' % len(acc), (I32, t), (), [('local.get', 0), ('local.get', 1), (n, 0, off)], 'store', (n, t, nb, off))
+    add(b'size', (), (I32,), [('memory.size',)], 'size', None)
+    add(b'copy', (I32, I32, I32), (), [('local.get', 0), ('local.get', 1), ('local.get', 2), ('memory.copy',)], 'copy', None)
+    add(b'fill', (I32, I32, I32), (), [('local.get', 0), ('local.get', 1), ('local.get', 2), ('memory.fill',)], 'fill', None)
+    segs = [0x7ffffffc, 0x80000000 + 64 * (1 + ch.below(8)), size - 8]
+    for k, off in enumerate(segs[:1 + ch.below(3)]):
+        m.datas.append(('active', ('i32.const', off), bytes((0x51 + k * 16 + i) & 0xff for i in range(8))))
+    script = e2e.default_setup(m, 1)
+    for md, off, data in m.datas:
+        script.append(('dump', 0, off[1] - 8, min(24, size - off[1] + 8)))
+    hot = [0x7ffffffc, 0x7fffffff, 0x80000000, 0x80000001, 0x80000100, 0x8000fff8, size - 8, size - 1, 0x7fff0000, 0x10]
+    by_kind = {}
+    for a in acc:
+        by_kind.setdefault(a[0], []).append(a)
+    n_high = 0
+    for step in range(30 + ch.below(30)):
+        kind = ch.weighted([(5, 'store'), (5, 'load'), (1, 'fill'), (1, 'copy'), (1, 'size')])
+        if kind in ('load', 'store'):
+            a = ch.pick(by_kind[kind])
+            det = a[2]
+            nb, off = det[2], det[-1]
+            ea = ch.pick(hot) + ch.below(9) - 4
+            ea = max(off, min(ea, size - nb))
+            if ea + nb > 0x80000000:
+                n_high += 1
+            if kind == 'store':
+                script.append(('call', 0, a[1], [ea - off, gen.gen_args(ch, [det[1]])[0]]))
+            else:
+                script.append(('call', 0, a[1], [ea - off]))
+            lo = max(ea - 8, 0)
+            script.append(('dump', 0, lo, min(24, size - lo)))
+        elif kind == 'fill':
+            d = min(ch.pick(hot), size - 64)
+            script.append(('call', 0, by_kind['fill'][0][1], [d, ch.below(256), ch.below(48)]))
+            script.append(('dump', 0, max(d - 8, 0), 64))
+        elif kind == 'copy':
+            d, s_ = min(ch.pick(hot), size - 64), min(ch.pick(hot), size - 64)
+            script.append(('call', 0, by_kind['copy'][0][1], [d, s_, ch.below(48)]))
+            script.append(('dump', 0, max(d - 8, 0), 64))
+        else:
+            script.append(('call', 0, by_kind['size'][0][1], []))
+    script.append(('mem', 0))
+
+    def nt(m_, script_, model, meta):
+        return [(f1.hx((wasm.encode(m_), repr(script_))), [])] if n_high else []
+    return m, script, {'nontrivial_fn': nt, 'ninst': 1, 'classes': {'address>=2^31': n_high, 'mem_2GiB': 1}}
+
+
 def plan(tier, seed):
+    big = {'maker': 'c05_bigmem', 'ccs': ['gcc-O0', 'clang-O2', 'gcc-O2', 'clang-O0'], 'shrink_budget': 6, 'reduce_budget': 6}
+    if tier == 'quick':
+        return plan_histories(tier) + [dict(big, ncases=2) for _ in range(4)]
+    return plan_histories(tier) + [dict(big, ncases=12) for _ in range(8)]
+
+
+def plan_histories(tier):
     if tier == 'quick':
         ccs = ['gcc-O0', 'clang-O2', 'gcc-O2', 'clang-O0', 'clang-O1-san', 'gcc-O1-san']
         return [{'maker': 'c05_history', 'ncases': 25, 'ccs': ccs, 'nsteps': 120, 'shrink_budget': 25, 'reduce_budget': 30}
